@@ -48,6 +48,7 @@ func main() {
 		seed := fs.Int64("seed", 1, "PRNG seed")
 		ops := fs.Int("ops", 60, "number of operations")
 		out := fs.String("out", "", "output history file")
+		streamPath := fs.String("stream", "", "also record the consensus input stream (twin test)")
 		fs.Parse(os.Args[2:])
 		t0 := time.Now()
 		f, err := os.Create(*out)
@@ -57,10 +58,20 @@ func main() {
 		w := bufio.NewWriterSize(f, 1<<20)
 		rng := rand.New(rand.NewSource(*seed))
 		var sum Summary
+		var streamW *bufio.Writer
+		if *streamPath != "" {
+			sf, err := os.Create(*streamPath)
+			if err != nil {
+				panic(err)
+			}
+			defer sf.Close()
+			streamW = bufio.NewWriterSize(sf, 1<<20)
+			defer streamW.Flush()
+		}
 		switch *profile {
 		case "did":
 			accs, bal := stdAccounts(24)
-			c, err := NewChain(GenesisSpec{Accounts: accs, Balances: bal, NodeParams: DefaultNodeParams(), ValidatorIdx: []int{0}, ValSelfBond: 1000000}, time.Unix(1700000000, 0))
+			c, err := NewChain(GenesisSpec{Accounts: accs, Balances: bal, NodeParams: DefaultNodeParams(), ValidatorIdx: []int{0}, ValSelfBond: 1000000, StreamW: streamW}, time.Unix(1700000000, 0))
 			if err != nil {
 				panic(err)
 			}
@@ -70,7 +81,7 @@ func main() {
 			c.Close()
 		case "node":
 			accs, bal := stdAccounts(8)
-			c, err := NewChain(GenesisSpec{Accounts: accs, Balances: bal, NodeParams: randomNodeParams(rng), ValidatorIdx: []int{0}, ValSelfBond: 1000000}, time.Unix(1700000000, 0))
+			c, err := NewChain(GenesisSpec{Accounts: accs, Balances: bal, NodeParams: randomNodeParams(rng), ValidatorIdx: []int{0}, ValSelfBond: 1000000, StreamW: streamW}, time.Unix(1700000000, 0))
 			if err != nil {
 				panic(err)
 			}
@@ -78,16 +89,20 @@ func main() {
 			runNodeHistory(r, rng, accs[1:], *ops)
 			sum = Summary{Steps: r.Steps, Ops: r.Ops, Outs: r.Outs, Halted: c.Halted}
 			c.Close()
-		case "sao", "saolong":
+		case "sao", "saolong", "genesis":
 			accs, bal := stdAccounts(16)
 			np := DefaultNodeParams()
 			np.FishmenInfo = accs[4].Bech() + "," + accs[2].Bech()
-			c, err := NewChain(GenesisSpec{Accounts: accs, Balances: bal, NodeParams: np, ValidatorIdx: []int{0}, ValSelfBond: 1000000}, time.Unix(1700000000, 0))
+			c, err := NewChain(GenesisSpec{Accounts: accs, Balances: bal, NodeParams: np, ValidatorIdx: []int{0}, ValSelfBond: 1000000, StreamW: streamW}, time.Unix(1700000000, 0))
 			if err != nil {
 				panic(err)
 			}
 			r := NewRecorder(w, c)
-			runSaoHistory(r, rng, accs[1:], *ops, *profile == "saolong")
+			ee := 0
+			if *profile == "genesis" {
+				ee = 6
+			}
+			runSaoHistory(r, rng, accs[1:], *ops, *profile == "saolong", ee)
 			sum = Summary{Steps: r.Steps, Ops: r.Ops, Outs: r.Outs, Halted: c.Halted}
 			c.Close()
 		case "staking":
@@ -100,7 +115,7 @@ func main() {
 			}
 			np := DefaultNodeParams()
 			np.VstorageThreshold = 5000000
-			c, err := NewChain(GenesisSpec{Accounts: accs, Balances: bal, NodeParams: np, ValidatorIdx: []int{0, 1}, ValBonds: []int64{1000000, 900000}, MaxVals: 1}, time.Unix(1700000000, 0))
+			c, err := NewChain(GenesisSpec{Accounts: accs, Balances: bal, NodeParams: np, ValidatorIdx: []int{0, 1}, ValBonds: []int64{1000000, 900000}, MaxVals: 1, StreamW: streamW}, time.Unix(1700000000, 0))
 			if err != nil {
 				panic(err)
 			}
@@ -110,7 +125,7 @@ func main() {
 			c.Close()
 		case "select":
 			accs, bal := stdAccounts(12)
-			c, err := NewChain(GenesisSpec{Accounts: accs, Balances: bal, NodeParams: DefaultNodeParams(), ValidatorIdx: []int{0}, ValSelfBond: 1000000}, time.Unix(1700000000, 0))
+			c, err := NewChain(GenesisSpec{Accounts: accs, Balances: bal, NodeParams: DefaultNodeParams(), ValidatorIdx: []int{0}, ValSelfBond: 1000000, StreamW: streamW}, time.Unix(1700000000, 0))
 			if err != nil {
 				panic(err)
 			}
@@ -125,7 +140,7 @@ func main() {
 					panic("unknown scenario " + *profile)
 				}
 				accs, bal := stdAccounts(12)
-				c, err := NewChain(GenesisSpec{Accounts: accs, Balances: bal, NodeParams: DefaultNodeParams(), ValidatorIdx: []int{0}, ValSelfBond: 1000000}, time.Unix(1700000000, 0))
+				c, err := NewChain(GenesisSpec{Accounts: accs, Balances: bal, NodeParams: DefaultNodeParams(), ValidatorIdx: []int{0}, ValSelfBond: 1000000, StreamW: streamW}, time.Unix(1700000000, 0))
 				if err != nil {
 					panic(err)
 				}
@@ -142,6 +157,14 @@ func main() {
 		sum.Profile = *profile
 		sum.Seed = *seed
 		sum.WallS = time.Since(t0).Seconds()
+		js, _ := json.Marshal(sum)
+		fmt.Println(string(js))
+	case "replay":
+		fs := flag.NewFlagSet("replay", flag.ExitOnError)
+		streamPath := fs.String("stream", "", "stream file recorded by gen --stream")
+		seed := fs.Int64("seed", 1, "schedule seed")
+		fs.Parse(os.Args[2:])
+		sum := replayStream(*streamPath, *seed)
 		js, _ := json.Marshal(sum)
 		fmt.Println(string(js))
 	default:
